@@ -161,8 +161,24 @@ func checkFont(c *fontCase) string {
 	}
 	sort.Strings(names)
 	widths := f.WidthsMapPDF()
-	if len(widths) != len(f.Glyphs) {
-		return fmt.Sprintf("WidthsMapPDF has %d entries, the font has %d glyphs", len(widths), len(f.Glyphs))
+	// the map agrees with the per-glyph call on every key it has; a key that
+	// is not a glyph of the font (say an explicit .notdef entry for a font
+	// without that glyph) must carry the fallback width
+	var extra []string
+	for k := range widths {
+		if _, ok := f.Glyphs[k]; !ok {
+			extra = append(extra, k)
+		}
+	}
+	sort.Strings(extra)
+	for _, k := range extra {
+		want := 0.0
+		if nd, ok := f.Glyphs[".notdef"]; ok {
+			want = nd.WidthX * M[0] * 1000
+		}
+		if w := widths[k]; w != f.GlyphWidthPDF(k) || !near(w, want) {
+			return fmt.Sprintf("WidthsMapPDF has an entry %q = %v for a name that is not a glyph of the font; GlyphWidthPDF gives %v, the fallback is %v", k, w, f.GlyphWidthPDF(k), want)
+		}
 	}
 	for _, n := range names {
 		g := f.Glyphs[n]
